@@ -7,10 +7,6 @@ NOT_APPLICABLE = {
            'extension strings, base64 headers); no structural necessary '
            'condition beyond constant tables the unit tests already pin - '
            'value-level, outside static analysis',
-    'C20': 'value-level round trip through the stdlib email package, pickle '
-           'and deepcopy on arbitrary header/body bytes; nothing in the shape '
-           'of Envelope decides it (the deep-copy clause is covered '
-           'structurally by C16)',
 }
 
 # claimed in DESIGN.md but whose check is not built yet (kept honest in the
@@ -356,6 +352,34 @@ claim('C17',
       'pattern, guard dominance, exception-escape analysis, loop-progress '
       'typestate',
       'DESIGN.md §4 C17')
+
+claim('C20',
+      'Structural part only - the body clause and the copy/refusal clauses: '
+      '(E1) Envelope.parse cuts its input at ONE index into header block and '
+      'payload (complementary slices at the end of the first match of the '
+      'boundary pattern; no match => everything is header, empty payload); '
+      '(E6) the boundary pattern, read as a regular-expression syntax tree, '
+      'is a line end, white space only, and one more LF, its middle part '
+      'cannot run over further lines; (E2) the payload reaches self.message '
+      'through _merge_payloads untouched (payload itself or <prefix> + '
+      'payload), flatten() returns self.message as it is, the attribute has '
+      'no other writer; (E3) parser and generator are built with the same '
+      'email policy; (E4) copy() is copy.deepcopy(self) and neither Envelope '
+      'nor a subclass defines copying / pickling hooks; (E5) encode_7bit '
+      're-raises exactly when no encoder was given and re-encodes only with '
+      'one, both only after the ASCII probe of the body failed. What the '
+      'stdlib email package does to header fields (order, folding, 8-bit '
+      'values), the fixed point of re-parsing, pickle fidelity of '
+      'email.message objects, the output of the 7-bit conversion and '
+      '"never raises on arbitrary bytes" are value-level facts about code '
+      'outside the repository and are NOT decided.',
+      'Trusted: Python slice and regex semantics as read off re._parser '
+      'trees; copy.deepcopy / pickle copy every attribute of an object '
+      'without hooks.',
+      'slice-complement check on the syntax tree, regex syntax-tree '
+      'analysis, value provenance of the body attribute, who-may-write, '
+      'guard dominance on the CFG',
+      'DESIGN.md §4 C20')
 
 
 def extend(pid, text, technique=None):
